@@ -1,12 +1,13 @@
 #!/bin/bash
 # ./mutall.sh [P]  : run every mutants/*.diff through mutcheck.sh (P parallel jobs), write mutants/RESULTS.json
 P=${1:-2}
+PAT=${2:-*}
 cd "$(dirname "$0")"
 mkdir -p /var/tmp/verif-mut/logs
-ls mutants/*.diff | xargs -P $P -I{} bash -c 'f={}; b=$(basename $f); id=$(echo ${b%%-*} | tr a-z A-Z); ./mutcheck.sh $f $id quick > /var/tmp/verif-mut/logs/$b.log 2>&1; echo "$b rc=$?"'
+ls mutants/$PAT.diff | xargs -P $P -I{} bash -c 'f={}; b=$(basename $f); id=$(echo ${b%%-*} | tr a-z A-Z); ./mutcheck.sh $f $id quick > /var/tmp/verif-mut/logs/$b.log 2>&1; echo "$b rc=$?"'
 python3 - <<'PY'
 import glob,json,os,re
-res={}
+res=json.load(open('mutants/RESULTS.json')) if os.path.exists('mutants/RESULTS.json') else {}
 for f in sorted(glob.glob('/var/tmp/verif-mut/logs/*.log')):
     b=os.path.basename(f)[:-4]
     t=open(f).read()
@@ -14,7 +15,8 @@ for f in sorted(glob.glob('/var/tmp/verif-mut/logs/*.log')):
     r='CAUGHT' if first.startswith('CAUGHT') else 'MISSED' if first.startswith('MISSED') else 'ERROR'
     m=re.search(r'sig=(\{.*?\})',t)
     res[b]={"result":r,"first_line":first[:200],"sig":m.group(1) if m else ""}
-json.dump(res,open('mutants/RESULTS.json','w'),indent=1)
+res={k:v for k,v in res.items() if os.path.exists('mutants/'+k)}
+json.dump(res,open('mutants/RESULTS.json','w'),indent=1,sort_keys=True)
 from collections import Counter
 print(Counter(v['result'] for v in res.values()))
 PY
